@@ -30,6 +30,8 @@ impl Irs {
 
 #[derive(Clone, Debug, Serialize, Deserialize)]
 pub enum Step {
+    /// the clock (inserted by the core's clock faults)
+    Wait { n: u32 },
     Add { acc: usize, ident: usize, n: u32 },
     Remove { acc: usize },
     Modify { acc: usize, ident: usize },
@@ -65,6 +67,9 @@ impl Check for IrsCheck {
         }
         (cfg, steps)
     }
+    fn clock_step(&self, n: u32) -> Option<Step> {
+        Some(Step::Wait { n })
+    }
     fn probes(&self, _prop: &str) -> std::vec::Vec<&'static str> {
         vec!["probe.country_limit_reached", "probe.identity_recovered"]
     }
@@ -86,6 +91,12 @@ impl Check for IrsCheck {
         for (i, s) in steps.iter().enumerate() {
             let before = w.storage_digest(&[&id]);
             let (kind, got, exp) = match s {
+                Step::Wait { n } => {
+                    w.advance(*n);
+                    st.ledgers += *n as u64;
+                    st.hit("clock.advance");
+                    ("wait", true, true)
+                }
                 Step::Add { acc: a, ident: d, n } => {
                     let g = c.try_add(&acc(*a), &ident(*d), n).is_ok();
                     let x = !rec.contains_key(a) && !reg.contains_key(a) && *n >= 1 && *n <= 15;
@@ -113,9 +124,11 @@ impl Check for IrsCheck {
                     ("delete_country_data", g, x)
                 }
             };
-            st.tx(kind, got);
+            if kind != "wait" {
+                st.tx(kind, got);
+            }
             if got != exp {
-                let check = if kind == "add_identity" && got && rec.contains_key(match s { Step::Add { acc, .. } => acc, _ => unreachable!() }) { "irs.recovered_never_reregistered" } else { "irs.dup_or_absent_refused" };
+                let check = if kind == "add_identity" && got && matches!(s, Step::Add { acc, .. } if rec.contains_key(acc)) { "irs.recovered_never_reregistered" } else { "irs.dup_or_absent_refused" };
                 return Err(violation(check, kind, i, format!("{s:?}: real {got} model {exp}; registered {:?} recovered {rec:?}", reg.keys().collect::<std::vec::Vec<_>>())));
             }
             if !got && w.storage_digest(&[&id]) != before { return Err(violation("fail.no_trace", kind, i, format!("{s:?}"))); }
